@@ -34,7 +34,21 @@ var c01Rest func(c *Ctx)
 func c01R1(c *Ctx, rule string) {
 	c.Rule(rule, "publication order: the connection slot is stored (sync.Map.Store on switchboard.conns, key = pre-increment count) before the count is raised, both inside one critical section", 1)
 	p := c.P
-	cnt := p.Field("internal/multiplex", "switchboard", "connsCount", "uint32")
+	cnt := p.Field("internal/multiplex", "switchboard", "connsCount")
+	if cnt == nil {
+		// role: the switchboard field whose atomic load bounds the random draw (rename tolerance)
+		for _, f := range p.FuncsOfPkg("internal/multiplex") {
+			allInstrs(f, func(i ssa.Instruction) {
+				if call, ok := i.(*ssa.Call); ok && strings.HasSuffix(calleeName(&call.Call), ".Uint32N") {
+					if lc, ok := stripConv(call.Call.Args[len(call.Call.Args)-1]).(*ssa.Call); ok && calleeName(&lc.Call) == "sync/atomic.LoadUint32" {
+						if fv, _ := fieldVar(lc.Call.Args[0]); fv != nil {
+							cnt = fv
+						}
+					}
+				}
+			})
+		}
+	}
 	conns := p.Field("internal/multiplex", "switchboard", "conns", "sync.Map")
 	if cnt == nil || conns == nil {
 		c.Undecided(rule, "anchor switchboard.{connsCount,conns}", "-", "field not found")
